@@ -500,7 +500,7 @@ class C12(RenderProp):
     id = "C12"
     n_quick = 3000
     n_thorough = 45000
-    required_theorems = ["C12_string_roundtrip", "C12_string_literal"]
+    required_theorems = ["C12_string_roundtrip", "C12_string_literal", "C12_marshal_valid_json"]
     rule = ("random JSON-shaped values (depth <= 4 quick / 7 thorough): objects with lower-case-initial keys (tails with quotes, angle brackets, blanks, non-ASCII), arrays, "
             "strings from an alphabet of quotes, backslash, slash, < > & ', all control characters, DEL, U+2028/9, multi-byte text, markup fragments; integers up to 2^53, "
             "short dyadic fractions, booleans, null; through `!= JSON.stringify(x)`, `!= json(x)` and stringify(parse(stringify(x))). Oracle: Go encoding/json decodes the "
